@@ -59,13 +59,30 @@ func init() {
 				p.Jobs = append(p.Jobs, Job{Harness: "ops.H_C14", Case: map[string]interface{}{"a": pr[1], "b": pr[0], "mode": mode, "dtype": "float32"}})
 			}
 		}
+		// rank 4 (quick tier: every rank-4 shape over {1,2} as the operand that is broadcast TO, against every shape of
+		// rank 0..4 over {1,2}; the thorough tier has all ordered pairs anyway)
+		if o.Tier != "thorough" {
+			all4 := shapesUpTo(4, []int{1, 2})
+			for _, a := range all4 {
+				if len(a) != 4 {
+					continue
+				}
+				for k, b := range all4 {
+					mode := []string{"uni", "multi"}[k%2]
+					p.Jobs = append(p.Jobs, Job{Harness: "ops.H_C14", Case: map[string]interface{}{"a": a, "b": b, "mode": mode, "dtype": "float32"}})
+					if len(b) == 4 {
+						p.Jobs = append(p.Jobs, Job{Harness: "ops.H_C14", Case: map[string]interface{}{"a": a, "b": b, "mode": []string{"multi", "uni"}[k%2], "dtype": "float32"}})
+					}
+				}
+			}
+		}
 		// a few larger extents
 		for _, pr := range [][2][]int{{{4, 1}, {1, 4}}, {{3, 1, 4}, {4}}, {{4}, {4, 4}}, {{2, 4}, {4, 2}}, {{1, 4, 1}, {3, 1, 2}}, {{4}, {2}}, {{2, 3}, {4, 3}}, {{9}, {3}}} {
 			for _, mode := range []string{"multi", "uni"} {
 				p.Jobs = append(p.Jobs, Job{Harness: "ops.H_C14", Case: map[string]interface{}{"a": pr[0], "b": pr[1], "mode": mode, "dtype": "float32"}})
 			}
 		}
-		p.Bounds = []string{"all ordered pairs of shapes of rank 0..3 with extents {1,2} (thorough: rank 0..4, extents {1,2,3}), both helpers, plus selected pairs with extents 4 and 9", "all element values symbolic (float32, int64, bool, uint8 rotated over the pairs; float32/float64/int64/int32/uint8/bool each against one-element operands of rank 0..2)"}
+		p.Bounds = []string{"all ordered pairs of shapes of rank 0..3 with extents {1,2} (thorough: rank 0..4, extents {1,2,3}), both helpers, in the quick tier also every rank-4 shape over {1,2} against every shape of rank 0..4 (helpers alternating, both for rank 4 against rank 4), plus selected pairs with extents 4 and 9", "all element values symbolic (float32, int64, bool, uint8 rotated over the pairs; float32/float64/int64/int32/uint8/bool each against one-element operands of rank 0..2)"}
 		p.Outside = []string{"extents > 3 beyond the listed pairs; the 'random larger shapes' clause of the quantifier is replaced by the bounded-exhaustive set"}
 		p.Explanation = "MultidirectionalBroadcast / UnidirectionalBroadcast and helpers executed symbolically; tensor.Repeat/Reshape/Clone run by the real gorgonia on term-id tensors"
 		return p
